@@ -57,8 +57,9 @@ def _data(rng, shape, dt):
     return (rng.normal(size=shape) * 10 + 3).astype(dt)
 
 
-def _close(got, want, scale):
-    return np.all(np.abs(np.asarray(got, dtype=np.float64) - want) <= 1e-5 * max(1.0, scale))
+def _close(got, want, scale, w=1):
+    # float32 rolling sums over w samples accumulate up to ~w*eps32 relative error (bottleneck keeps the input precision)
+    return np.all(np.abs(np.asarray(got, dtype=np.float64) - want) <= max(1e-5, 2.5e-7 * w) * max(1.0, scale))
 
 
 def run_case(case, ctx):
@@ -91,7 +92,7 @@ def _running(case, ctx, ws=None, n=None):
                     ctx.violation(f"running-length[{reg}]", f"n={n} w={w}: output length {np.asarray(got).shape}", one)
                     continue
                 want = refmodels.running_filter_ref(x64, w, method)
-                if not _close(got, want, np.abs(x64).max()):
+                if not _close(got, want, np.abs(x64).max(), w):
                     i = int(np.argmax(np.abs(np.asarray(got, dtype=np.float64) - want)))
                     ctx.violation(f"running-values[{reg}]", f"n={n} w={w} {dt} {method}: out[{i}]={np.asarray(got)[i]!r}, definition {want[i]!r}", one)
                     continue
@@ -326,7 +327,7 @@ def _compose(case, ctx):
                 try:
                     got = np.asarray(ts.deredden(method=method, window=wsec).data, dtype=np.float64)
                     want = x64 - refmodels.running_filter_ref(x64, w, method)
-                    if got.shape != (n,) or not _close(got, want, np.abs(x64).max()):
+                    if got.shape != (n,) or not _close(got, want, np.abs(x64).max(), w):
                         ctx.violation(f"deredden:{method}", f"n={n} window={w} bins: deredden != x - running {method}", one)
                     else:
                         ctx.nontrivial_case(one)
